@@ -24,8 +24,8 @@ CLAIMS = {
          "Trusted: arc_swap, hashbrown, hex, str::trim. Paths are enumerated with loops unrolled once; feasibility is not solved.",
          "DESIGN.md section 2, C11"),
  "C06": ("path-sensitive guard/effect analysis of both UDP back ends (validator true edge before every non-connect reply; per-datagram send count; origin of txid and destination)",
-         "Necessary conditions decided on every enumerated path: the complete reply table of handle_request in both back ends (request kind x validator outcome x access list -> reply kind, transaction id and destination), error replies for sendable parse errors only under a valid id for (source, that error's id), per-datagram slices of the mio receive loop with at most one send (exactly one when answered, none for port 0), the io_uring queue/send path keeping reply and address together, 16-byte connect reply <= smallest accepted connect request, scrape order and limit origin.",
-         "Not decided: kernel delivery, resend timing; the io_uring request buffer size question is decided under C18. Receive loop unrolled once; path feasibility not solved.",
+         "Necessary conditions decided on every enumerated path: the complete reply table of handle_request in both back ends (request kind x validator outcome x access list -> reply kind, transaction id and destination), error replies for sendable parse errors only under a valid id for (source, that error's id), per-datagram slices of the mio receive loop with at most one send (exactly one when answered, none for port 0), the io_uring queue/send path keeping reply and address together, 16-byte connect reply <= smallest accepted connect request, scrape order and limit origin; the mio resend buffer only receives a reply after its single send_to failed, with queueing enabled, and each queued reply is retried once with queueing off.",
+         "Not decided: kernel delivery (whether a send that reported an error delivered anything); the io_uring request buffer size question is decided under C18. Receive loop unrolled once (quick) / twice (thorough); path feasibility not solved.",
          "DESIGN.md section 2, C06"),
  "C03": ("closed-world taint query (request address fields never read), inter-procedural origin chase of the stored ip over all callers, constructor discipline, complete decision tables of the canonicalisation",
          "Proof over listed obligations: AnnounceRequest.ip_address has zero reads in aquatic_udp (positive control: .port), HTTP/WS requests have no address field or query key; the ip that forms the peer-map key is chased hop by hop through every caller to recv_from().1 / the recvmsg name / TcpStream::peer_addr or parse_forwarded_header's result, switched exactly by runs_behind_reverse_proxy; CanonicalSocketAddr literals exist only in its constructor whose decision table is exactly ::ffff:a.b.c.d -> V4(a.b.c.d, port); the WebTorrent family classifier has the same 12-byte pattern; family selection uses the canonical address.",
@@ -64,11 +64,11 @@ CLAIMS = {
          "The bounds themselves follow from the hand argument recorded in rules/C02.py. Not decided: distinctness/membership of returned peers (indexmap), behaviour over RNG outcomes. Stated risk: an equivalent reformulation of the arithmetic would be reported.",
          "DESIGN.md section 2, C02"),
  "C09": ("path/effect analysis of the offer and answer relays with identity of the zipped receiver tuple tracked through projections",
-         "Necessary conditions on every enumerated path: each forwarded offer is preceded in its iteration by exactly one expectation insert on the SENDER's entry keyed (receiver id, that offer's id); all six fields of a forwarded offer (expectation, routing pair, offer, offer id) project from the same zip item; receivers are zip(offers, extract_response_peers(min(offers, max_offers), sender)) with no reordering adapter; handle_offers/handle_answer only on the status != Stopped edge; handle_answer's complete three-row table (peer gone -> nothing; expectation consumed by swap_remove -> AnswerOutMessage to the offering peer's own (consumer, connection) pair; otherwise ErrorResponse to the answerer).",
+         "Necessary conditions on every enumerated path: each forwarded offer is preceded in its iteration by exactly one expectation insert on the SENDER's entry keyed (receiver id, that offer's id); all six fields of a forwarded offer (expectation, routing pair, offer, offer id) project from the same zip item; receivers are zip(offers, extract_response_peers(min(offers, max_offers), sender)) with no reordering adapter; handle_offers/handle_answer only on the status != Stopped edge; handle_answer's complete three-row table (peer gone -> nothing; expectation consumed by swap_remove -> AnswerOutMessage to the offering peer's own (consumer, connection) pair; otherwise ErrorResponse to the answerer); the selection function that produces the receivers never returns the sender, truncates to its limit and returns everyone when there are no more others than that (so min(offers, max_offers, others) offers are forwarded).",
          "Not decided: multi-connection offer/answer histories (needs C08's bookkeeping to be right); expiry of expectations is decided under C10.",
          "DESIGN.md section 2, C09"),
  "C20": ("ordering/guard analysis of the export protocol, origin of export fields and totals, path table of the tally messages, CFG dominance for the statistics worker",
-         "Necessary conditions: File::create(tmp) < both cleaning passes < flush < drop < rename(tmp, path) on every exporting path, rename only on the Ok edge of flush, tmp = path.with_extension (same directory), nobody else creates files except the statistics page writer; export lines carry version, info hash and .0/.1 of that torrent's clean_and_get_num_peers, only on num_peers != 0; tally messages: PeerRemoved names the removed entry's id, PeerAdded the request's id, id change sends both, same id none (rule exposed a genuine defect, fix: c58c050); cleaners emit PeerRemoved per expired peer; worker +1/-1 dominated by the matching arm; totals stored after both passes from the passes' results. Two recorded known findings (totals / tallies of access-list-dropped torrents).",
+         "Necessary conditions: File::create(tmp) < both cleaning passes < flush < drop < rename(tmp, path) on every exporting path, rename only on the Ok edge of flush, tmp = path.with_extension (same directory), nobody else creates files except the statistics page writer; export lines carry version, info hash and .0/.1 of that torrent's clean_and_get_num_peers, only on num_peers != 0; tally messages: PeerRemoved names the removed entry's id, PeerAdded the request's id, id change sends both, same id none (rule exposed a genuine defect, fix: c58c050); cleaners emit PeerRemoved per expired peer; worker +1/-1 dominated by the matching arm; totals stored after both passes from the passes' results; peer total, export line and per-peer PeerRemoved of a torrent sit behind the access-list test of the same cleaning loop (rule exposed a second genuine defect - totals, tallies and export of access-list-dropped torrents - first recorded, then repaired by fix: 34bbff2).",
          "Not decided: statistics arithmetic over message histories, rename atomicity (POSIX).",
          "DESIGN.md section 2, C20"),
  "C14": ("abstract interpretation of the reply writers' output streams by a bencode grammar in the checker; reader/writer table agreement for requests; path analysis of the percent-decoder; serde schema unambiguity",
@@ -84,7 +84,7 @@ CLAIMS = {
          "Not decided: delivery, back-pressure, close-frame vs reset timing.",
          "DESIGN.md section 2, C17"),
  "C12": ("call-graph reachability from the network entry points + exhaustive enumeration of panic-capable MIR sites against a reviewed table; guard obligations by path analysis; origin of allocation sizes",
-         "An inventory, not a proof: 200 entry bodies (socket read paths, swarm handlers, all parse functions and serde visitors of the protocol crates), ~400 reachable workspace bodies, every Assert terminator and panic-capable call among them (110 groups / 204 sites on the pinned tree) must be covered by a reviewed line of aqv/tables/C12_sites.json with a multiplicity ceiling - a new unwrap, index, expect, unchecked subtraction or panic! reachable from network input is reported with its location; named sites carry machine-checked guards (numwant unwrap only for peers_wanted > 0, selection arithmetic and random_range only on the len > max edge with non-empty ranges, seeder decrements under the seeder flag, udp action read via get(8..12)); allocation sizes are constants, lengths, clamped limits or min/+ of those; protocol crates call no tracker crate. The deliberate panic! on a missing proxy header is a recorded known finding.",
+         "An inventory, not a proof: 200 entry bodies (socket read paths, swarm handlers, all parse functions and serde visitors of the protocol crates), ~400 reachable workspace bodies, every Assert terminator and panic-capable call among them (110 groups / 204 sites on the pinned tree) must be covered by a reviewed line of aqv/tables/C12_sites.json with a multiplicity ceiling - a new unwrap, index, expect, unchecked subtraction or panic! reachable from network input is reported with its location; named sites carry machine-checked guards (numwant unwrap only for peers_wanted > 0, selection arithmetic and random_range only on the len > max edge with non-empty ranges, seeder decrements under the seeder flag, udp action read via get(8..12)); allocation sizes are constants, lengths, clamped limits or min/+ of those; protocol crates call no tracker crate; the only senders toward swarm workers in the http / ws socket workers sit behind a successful parse (rejected input cannot change tracker state). The deliberate panic! on a missing proxy header is a recorded known finding.",
          "Not decided: panics/allocation inside dependencies, release-mode wrapping of the reviewed arithmetic. A newly added panic-capable call that is in fact safe must be reviewed into the table (that is the rule's purpose).",
          "DESIGN.md section 2, C12"),
 }
